@@ -210,6 +210,8 @@ func runC15(c *Ctx) {
 	}
 
 	checkHCLKeys(c, "R15b", []string{pSpecutil, pSqlspec, pSqlite, pMysql, pPostgres, pHCL}, "hcl")
+	c.Rule("R15f", "sibling agreement per resource level: for each dialect and each pair (convertTable, tableSpec), (convertColumn, columnSpec), (convertIndex, indexSpec) every dialect-specific attribute key the converter itself reads (spec.Attr(\"k\") in its own body) is written by the marshaller (or its package-local helpers)", 6)
+	checkSiblingKeys(c)
 	c.Rule("R15e", "attribute guard independence: an optional HCL attribute written from field F of an object is not made conditional on a comparison of a different field G of the same object with a constant (each optional attribute is omitted only because of its own default)", 10)
 	checkAttrGuards(c)
 
@@ -461,5 +463,79 @@ func checkAttrGuards(c *Ctx) {
 	}
 	if n == 0 {
 		c.Unresolved("R15e", "guarded HCL attribute writes")
+	}
+}
+
+// checkSiblingKeys: see R15f.
+func checkSiblingKeys(c *Ctx) {
+	collect := func(fi *FuncInfo, maxDepth int) (read, written map[string]token.Pos) {
+		read, written = map[string]token.Pos{}, map[string]token.Pos{}
+		seen := map[*types.Func]bool{}
+		var visit func(f *FuncInfo, depth int)
+		visit = func(f *FuncInfo, depth int) {
+			if seen[f.Obj] || depth > maxDepth {
+				return
+			}
+			seen[f.Obj] = true
+			info := f.Info()
+			ast.Inspect(f.Decl.Body, func(m ast.Node) bool {
+				call, ok := m.(*ast.CallExpr)
+				if !ok {
+					return true
+				}
+				fn := calleeOf(info, call)
+				if fn == nil {
+					return true
+				}
+				if len(call.Args) > 0 {
+					if k, ok := stringConst(info, call.Args[0]); ok {
+						switch {
+						case hclWriterFuncs[fn.Name()] && fn.Pkg() != nil && (fn.Pkg().Path() == pHCL || fn.Pkg().Path() == pSpecutil):
+							if _, dup := written[k]; !dup {
+								written[k] = call.Pos()
+							}
+						case fn.Name() == "Attr" && fn.Pkg() != nil && fn.Pkg().Path() == pHCL:
+							if _, dup := read[k]; !dup {
+								read[k] = call.Pos()
+							}
+						}
+					}
+				}
+				if fn.Pkg() != nil && fn.Pkg().Path() == f.Pkg.PkgPath {
+					if cf := c.FuncInfoOf(fn); cf != nil {
+						visit(cf, depth+1)
+					}
+				}
+				return true
+			})
+		}
+		visit(fi, 0)
+		return
+	}
+	n := 0
+	for _, pp := range []string{pMysql, pPostgres, pSqlite} {
+		for _, pair := range [][2]string{{"convertTable", "tableSpec"}, {"convertColumn", "columnSpec"}, {"convertIndex", "indexSpec"}} {
+			conv := c.LookupFunc(pp, "", pair[0])
+			spec := c.LookupFunc(pp, "", pair[1])
+			if conv == nil || spec == nil {
+				continue
+			}
+			n++
+			r, _ := collect(conv, 0)
+			_, w := collect(spec, 2)
+			var rk []string
+			for k := range r {
+				rk = append(rk, k)
+			}
+			sort.Strings(rk)
+			key := shortPkg(pp) + "|" + pair[0] + " ⇄ " + pair[1]
+			for _, k := range rk {
+				_, ok := w[k]
+				c.Check("R15f", key+"|"+k, r[k], ok, "%s.%s reads the attribute %q that %s.%s (and its package-local helpers) never writes: a schema carrying it loses it when written as HCL", shortPkg(pp), pair[0], k, shortPkg(pp), pair[1])
+			}
+		}
+	}
+	if n == 0 {
+		c.Unresolved("R15f", "converter / marshaller pairs")
 	}
 }
